@@ -14,6 +14,60 @@ package ocidir
 //@   requires tag-absent: forall(k, 0, len(index.Manifests), index.Manifests[k].Annotations["org.opencontainers.image.ref.name"] != caller.r.Tag)
 //@ func (*OCIDir).tagDelete(ctx, r) (err)
 //@   prop C06
+//@   requires lock-held: $held(OCIDir.mu)
 //@   loop 0 (i)
 //@     invariant range: -1 <= i && i < len(index.Manifests)
 //@     invariant suffix-clean: forall(k, i + 1, len(index.Manifests), index.Manifests[k].Annotations["org.opencontainers.image.ref.name"] != r.Tag)
+
+// C06 (OCI layout): deleting a manifest by digest removes every index entry with that digest.
+//@ callsite (*OCIDir).writeIndex(r, index, locked)
+//@   prop C06
+//@   name writeIndex/ManifestDelete
+//@   in ~/scheme/ocidir
+//@   infunc \)\.ManifestDelete$
+//@   requires digest-absent: forall(k, 0, len(index.Manifests), index.Manifests[k].Digest != caller.r.Digest)
+//@ func (*OCIDir).ManifestDelete(ctx, r, opts) (err)
+//@   prop C06
+//@   loop 1 (i)
+//@     invariant range: -1 <= i && i < len(index.Manifests)
+//@     invariant suffix-clean: forall(k, i + 1, len(index.Manifests), index.Manifests[k].Digest != r.Digest)
+
+// C06/C10 "operations issued concurrently": every read-modify-write of index.json runs with the
+// layout mutex held continuously. The index primitives called with locked == true require the
+// lock; functions that are themselves called under the lock declare it as their pre-condition.
+//@ callsite (*OCIDir).readIndex(r, locked)
+//@   prop C06
+//@   name readIndex
+//@   in ~/scheme/ocidir
+//@   requires lock-held-when-claimed: locked ==> $held(OCIDir.mu)
+//@ callsite (*OCIDir).writeIndex(r, index, locked)
+//@   prop C06
+//@   name writeIndex
+//@   in ~/scheme/ocidir
+//@   requires lock-held-when-claimed: locked ==> $held(OCIDir.mu)
+//@ callsite (*OCIDir).updateIndex(r, d, child, locked)
+//@   prop C06
+//@   name updateIndex
+//@   in ~/scheme/ocidir
+//@   requires lock-held-when-claimed: locked ==> $held(OCIDir.mu)
+//@ func (*OCIDir).manifestGet(ctx, r) (m, err)
+//@   prop C06
+//@   requires lock-held: $held(OCIDir.mu)
+//@ func (*OCIDir).manifestPut(ctx, r, m, opts) (err)
+//@   prop C06
+//@   requires lock-held: $held(OCIDir.mu)
+//@ func (*OCIDir).updateIndex(r, d, child, locked) (err)
+//@   prop C06
+//@   requires lock-held-when-claimed: locked ==> $held(OCIDir.mu)
+//@ func (*OCIDir).closeProcManifest
+//@   prop C06
+//@   requires lock-held: $held(OCIDir.mu)
+//@ func (*OCIDir).referrerDelete
+//@   prop C06
+//@   requires lock-held: $held(OCIDir.mu)
+//@ func (*OCIDir).referrerList
+//@   prop C06
+//@   requires lock-held: $held(OCIDir.mu)
+//@ func (*OCIDir).referrerPut
+//@   prop C06
+//@   requires lock-held: $held(OCIDir.mu)
